@@ -1477,6 +1477,61 @@ func partE() {
 		res.Violate("view:destinations", "DelDestination(1) on 3 destinations did not leave 2", nil)
 	}
 	shutdownRoute(t, key)
+	eDestinationViews()
+}
+
+// eDestinationViews: a route's destination list after a sequence of DelDestination calls is the configured list
+// without the deleted entries, in configured order (sendFirstMatch depends on the order; a delete that moves
+// another destination into the freed slot changes which destination is "first").
+func eDestinationViews() {
+	nh := mon.N(3, 40)
+	idx := 0
+	for _, kind := range []string{"sendAllMatch", "sendFirstMatch", "consistentHashing"} {
+		for h := 0; h < nh; h++ {
+			idx++
+			if !mon.Mine(idx) {
+				continue
+			}
+			r := mon.NewRng(mon.Seed(), 187, uint64(idx))
+			n := r.Range(3, 6)
+			if h == 0 {
+				n = 5
+			}
+			t := mon.NewTable("none", "none", false, "/nonexistent")
+			key := fmt.Sprintf("ev%d", u())
+			model := append([]string(nil), realRoute(t, key, n, kind)...)
+			var hist []string
+			res.LogCase("E destination views %s n=%d", kind, n)
+			for len(model) > 1 {
+				del := r.Intn(len(model))
+				if h == 0 && len(model) == n {
+					del = 0 // the first delete of the first history frees the first slot of five
+				}
+				hist = append(hist, fmt.Sprintf("DelDestination(%d)", del))
+				if err := t.DelDestination(key, del); err != nil {
+					res.Violate("view:deldest-rejected", fmt.Sprintf("%s route with %d destinations: %s returned %v", kind, len(model), hist[len(hist)-1], err), map[string]interface{}{"history": hist})
+					break
+				}
+				model = append(append([]string(nil), model[:del]...), model[del+1:]...)
+				var got []string
+				for _, rs := range t.Snapshot().Routes {
+					if rs.Key == key {
+						for _, d := range rs.Dests {
+							got = append(got, d.Addr)
+						}
+					}
+				}
+				if strings.Join(got, " ") != strings.Join(model, " ") {
+					res.Violate("view:destination-order", fmt.Sprintf("%s route, %d destinations configured, after %v the view lists %v, the configured order without the deleted entries is %v", kind, n, hist, got, model), map[string]interface{}{"history": hist, "kind": kind})
+					break
+				}
+				res.Count("destination_views_compared", 1)
+			}
+			res.Eval(1)
+			res.NonTrivial(fmt.Sprintf("E/destviews/%s/%d", kind, n))
+			shutdownRoute(t, key)
+		}
+	}
 }
 
 // ---------------------------------------------------------------- part F: one change, several options
